@@ -200,6 +200,17 @@ CLAIMED = {
         design='DESIGN.md §5 C11',
         note=NOTE_COMMON + 'id (hash_entry), weight (get_weight) and Position are Beancount functions: compared with a direct call, not modelled.',
         technique='Lean 4 proof (row structure, lookups, generated column table by decide) + per-column traversal correspondence'),
+    'C14': dict(
+        text=('Lean theorems: the ASTs produced by the live `transform_balances` / `transform_journal` for every summary function '
+              '(none, units, cost), with and without an account pattern, are dumped on every run and proved EQUAL (`decide` over '
+              'the generated text) to the rendering of the SELECT the property names, built from a specification document and a '
+              'printer that mirrors `ast.tosexp`; PRINT\'s collection loop equals `filter` (order kept, everything kept when no '
+              'condition). Tied to the code by correspondence on generated ledgers: BALANCES / JOURNAL x summary functions x FROM '
+              '(incl. OPEN/CLOSE/CLEAR) x WHERE x account patterns against the written-out SELECT, and PRINT output re-loaded '
+              'with the Beancount loader and compared structurally with the filtered directives.'),
+        design='DESIGN.md §5 C14',
+        note=NOTE_COMMON + 'PARTIAL: "loads back to equal directives" depends on Beancount\'s printer and loader and is correspondence only; account patterns containing a double quote are outside the domain (string interpolation in the template).',
+        technique='Lean 4 proof (generated template = specification by decide; PRINT loop = filter) + ledger correspondence'),
 }
 
 PENDING_REASON = 'check under construction in this round (model or correspondence not yet registered); not claimed yet'
